@@ -80,11 +80,39 @@ def binop(ex, st, op, a, b, node=None):
     eng = ex.eng
     a = ex.narrow(st, a)
     b = ex.narrow(st, b)
+    if isinstance(op, ast.BitOr) and (_setlike(a) and _setlike(b)) and not (isinstance(a, V) and isinstance(b, V) and a.ty == b.ty == "set" and False):
+        # union of sets / key views: kept symbolic (membership = disjunction over the parts)
+        parts = (a.val if isinstance(a, Const) and a.kind == "setunion" else [a]) + \
+                (b.val if isinstance(b, Const) and b.kind == "setunion" else [b])
+        yield st, Const("setunion", parts)
+        return
     if not (isinstance(a, V) and isinstance(b, V)):
-        # set algebra on host-level constant sets (hashlib.algorithms_guaranteed | ...)
         raise _unsupported(f"binop on host values {a} {b}")
     ta, tb = a.ty, b.ty
     num = ("int", "bool")
+    # ---- 64-bit vectors (contracts that declare bv64 locals / specs typed bv64)
+    if "bv64" in (ta, tb) and {ta, tb} <= {"bv64", "int", "bool", "py"}:
+        x, y = S.to_bv64(a), S.to_bv64(b)
+        if isinstance(op, ast.BitXor):
+            yield st, V("bv64", x ^ y)
+            return
+        if isinstance(op, ast.BitAnd):
+            yield st, V("bv64", x & y)
+            return
+        if isinstance(op, ast.BitOr):
+            yield st, V("bv64", x | y)
+            return
+        if isinstance(op, ast.RShift):
+            k = is_conc(ex.as_int(b)) if tb != "bv64" else None
+            if k is None or ta != "bv64":
+                raise _unsupported("bv64 shift by a non-constant")
+            yield st, V("bv64", z3.LShR(x, k) if k < 64 else z3.BitVecVal(0, 64))
+            return
+        # arithmetic: back in the integers
+        ia = V("int", ex.as_int(a))
+        ib = V("int", ex.as_int(b))
+        yield from binop(ex, st, op, ia, ib, node)
+        return
     # ---- sequence concatenation / repetition
     if isinstance(op, ast.Add) and ta == tb and ta in ("str", "bytes", "list", "tuple"):
         yield st, V(ta, z3.Concat(a.t, b.t))
@@ -270,6 +298,12 @@ def binop(ex, st, op, a, b, node=None):
         raise _unsupported(f"binop:{type(op).__name__}")
 
 
+def _setlike(x):
+    if isinstance(x, Const):
+        return x.kind in ("setunion", "keysview", "specset")
+    return isinstance(x, V) and x.ty == "set"
+
+
 def _shift_of(t):
     """t syntactically of the form d * P with P = 2^k (constant) or pow2(s): -> (d, P)"""
     if z3.is_app(t) and t.decl().kind() == z3.Z3_OP_MUL and t.num_args() == 2:
@@ -297,6 +331,8 @@ def pyeq(ex, st, a, b):
     b = ex.narrow(st, b)
     ta, tb = a.ty, b.ty
     scalars = ("int", "bool", "str", "bytes", "none", "float")
+    if "bv64" in (ta, tb) and {ta, tb} <= {"bv64", "int", "bool"}:
+        return S.to_bv64(a) == S.to_bv64(b)
     if ta in ("int", "bool") and tb in ("int", "bool"):
         return ex.as_int(a) == ex.as_int(b)
     if ta == tb and ta in ("str", "bytes"):
@@ -344,6 +380,30 @@ def contains(ex, st, item, cont):
     """`item in cont` -> generator (st, Bool term | Raise)"""
     eng = ex.eng
     cont = ex.narrow(st, cont)
+    if isinstance(cont, Const) and cont.kind == "setunion":
+        terms = []
+        states = [st]
+        cur = st
+        for part in cont.val:
+            res = list(contains(ex, cur, item, part))
+            if len(res) != 1 or not z3.is_bool(res[0][1]) if not isinstance(res[0][1], bool) else False:
+                raise _unsupported("membership in a union forked")
+            cur = res[0][0]
+            terms.append(res[0][1])
+        yield cur, z3.Or(*terms)
+        return
+    if isinstance(cont, Const) and cont.kind == "specset":
+        item = ex.narrow(st, item)
+        if item.ty == "str":
+            yield st, eng.spec_apply("spec.core", cont.val, [item]).t
+        elif item.ty == "py":
+            yield st, z3.And(Py.is_str(item.t), eng.spec_apply("spec.core", cont.val, [V("str", Py.s(item.t))]).t)
+        else:
+            yield st, z3.BoolVal(False)
+        return
+    if isinstance(cont, Const) and cont.kind == "keysview":
+        yield from contains(ex, st, item, cont.val)
+        return
     if isinstance(cont, Const):
         if cont.kind in ("set", "tuple", "list", "dictconst"):
             vals = cont.val.keys() if isinstance(cont.val, dict) else cont.val
